@@ -16,6 +16,7 @@ TraceInit == l = 1 /\ CInit([n |-> 0, mode |-> "pdh"])
 TraceReset == /\ IsEvent("reset")
               /\ cfg' = [n |-> Ev.n, mode |-> Ev.mode]
               /\ ans' = [b \in Backends |-> "none"]
+              /\ asked' = [b \in Backends |-> FALSE]
               /\ gaveup' = FALSE
               /\ done' = "no"
 
